@@ -29,10 +29,10 @@ Proof. intros id id_eqb uid a b c H. apply (merge_keeps_all id_eqb uid cur_table
 
 (* the fields `kept` speaks about, and the ones it does not (computed from the regenerated tables).
    These three Examples pin the complement; they change when a `merge!` line is added or removed.  After the F3 repair (merge! for
-   sighash_type, sequence, amount, asset) what is left is: tx_data.fallback_locktime (finding F3-global-fallback_locktime-dropped, not
-   repaired), non_witness_utxo (cleared by an arriving witness_utxo: F3-witness-utxo-clears-non-witness-utxo, not repaired) and the two
+   sighash_type, sequence, amount, asset) and the fallback repair (first-wins statement for tx_data.fallback_locktime) what is left is:
+   nothing in Global; non_witness_utxo (cleared by an arriving witness_utxo: F3-witness-utxo-clears-non-witness-utxo, a recorded finding) and the two
    output commitments, which are part of the transaction and therefore equal in operands that pass the gate (C14_commitments_fixed_by_uid). *)
-Example C14_known_lost_global : lost_optional pset_global_fields pset_global_merge = [fld "tx_data.fallback_locktime"].
+Example C14_known_lost_global : lost_optional pset_global_fields pset_global_merge = [].
 Proof. vm_compute. reflexivity. Qed.
 Example C14_known_lost_input : lost_optional pset_input_fields pset_input_merge = [fld "non_witness_utxo"].
 Proof. vm_compute. reflexivity. Qed.
@@ -43,9 +43,9 @@ Example C14_unmerged_mandatory :
   (unmerged_mandatory pset_global_fields pset_global_merge, unmerged_mandatory pset_input_fields pset_input_merge, unmerged_mandatory pset_output_fields pset_output_merge)
   = ([fld "tx_data.version"; fld "tx_data.input_count"; fld "tx_data.output_count"], [fld "previous_txid"; fld "previous_output_index"], [fld "script_pubkey"]).
 Proof. vm_compute. reflexivity. Qed.
-(* non-vacuity: 7 + 45 + 17 fields are covered by C14_keeps_all *)
+(* non-vacuity: 8 + 45 + 17 fields are covered by C14_keeps_all *)
 Example C14_kept_counts : (length (kept_fields pset_global_fields pset_global_merge), length (kept_fields pset_input_fields pset_input_merge),
-                           length (kept_fields pset_output_fields pset_output_merge)) = (7, 45, 17)%nat.
+                           length (kept_fields pset_output_fields pset_output_merge)) = (8, 45, 17)%nat.
 Proof. vm_compute. reflexivity. Qed.
 
 (* the two output commitments have no statement, but they are part of the id pre-image: operands whose unique-id pre-images are equal
@@ -55,11 +55,6 @@ Theorem C14_commitments_fixed_by_uid : forall p q t, uid_preimage p = Val t -> u
     unk x (fld "amount_comm") = unk y (fld "amount_comm") /\ unk x (fld "asset_comm") = unk y (fld "asset_comm").
 Proof. intros p q t. apply commitments_fixed_by_uid. Qed.
 
-(* F3-global-fallback_locktime-dropped (not repaired): the only optional field of Global that has no statement is lost when only
-   `other` carries it (witness operands: the empty map and the map with just that field) *)
-Theorem C14_keeps_all_refuted :
-  exists a b c, merge_map_with xpub_take_arm_guarded pset_global_merge a b = Val c /\ unk b (fld "tx_data.fallback_locktime") <> None /\ unk c (fld "tx_data.fallback_locktime") = None.
-Proof. apply loses_witness. vm_compute. reflexivity. Qed.
 (* F3-witness-utxo-clears-non-witness-utxo: a witness_utxo arriving from `other` deletes self's non_witness_utxo *)
 Theorem C14_utxo_clearing_refuted :
   exists a b c, merge_map_with xpub_take_arm_guarded pset_input_merge a b = Val c /\ unk a (fld "non_witness_utxo") <> None /\ unk c (fld "non_witness_utxo") = None.
@@ -78,15 +73,20 @@ Theorem C14_commutes : forall (id : Type) (id_eqb : id -> id -> bool) (uid : pse
 Proof. intros. apply (merge_commutes id_eqb uid cur_tables a b x y); auto; vm_compute; reflexivity. Qed.
 Theorem C14_descendants_compat : forall o a b, extends o a -> extends o b -> additions_agree o a b -> compat a b.
 Proof. exact descendants_compat. Qed.
-(* without the restriction the statement is false: a descendant that added the (unmerged) fallback lock time makes the result depend on
-   the order — witness at the global map *)
+(* without the `quiet` restriction the statement is false: one descendant added a non_witness_utxo, the other a witness_utxo (disjoint
+   additions); merging the second into the first deletes the non_witness_utxo, merging the first into the second keeps both *)
 Theorem C14_commutes_refuted : exists a b c c',
-  wf_map a /\ wf_map b /\ compat a b /\
-  merge_map_with xpub_take_arm_guarded pset_global_merge a b = Val c /\ merge_map_with xpub_take_arm_guarded pset_global_merge b a = Val c' /\
-  unk c (fld "tx_data.fallback_locktime") <> unk c' (fld "tx_data.fallback_locktime").
+  wf_map a /\ wf_map b /\ compat a b /\ agree_unmerged pset_input_merge a b /\
+  merge_map_with xpub_take_arm_guarded pset_input_merge a b = Val c /\ merge_map_with xpub_take_arm_guarded pset_input_merge b a = Val c' /\
+  unk c (fld "non_witness_utxo") <> unk c' (fld "non_witness_utxo").
 Proof.
-  exists empty_map, (set_unk empty_map (fld "tx_data.fallback_locktime") (Some [x01; x00; x00; x00])).
-  eexists. eexists. split; [intros f; reflexivity|]. split; [intros f; reflexivity|]. split; [split; cbn; intros; discriminate|].
+  exists (set_unk empty_map (fld "non_witness_utxo") (Some [x01])), (set_unk empty_map (fld "witness_utxo") (Some [x02])).
+  eexists. eexists. split; [intros f; reflexivity|]. split; [intros f; reflexivity|].
+  split. { split; [|cbn; intros; discriminate]. intros f x y. unfold set_unk, empty_map. cbn [unk].
+           destruct (bytes_eqb f (fld "non_witness_utxo")) eqn:E; [|discriminate]. apply bytes_eqb_eq in E. subst f. vm_compute. discriminate. }
+  split. { intros f. split; [|reflexivity]. intros K. unfold set_unk, empty_map. cbn [unk].
+           destruct (bytes_eqb f (fld "non_witness_utxo")) eqn:E; [apply bytes_eqb_eq in E; subst f; vm_compute in K; discriminate K|].
+           destruct (bytes_eqb f (fld "witness_utxo")) eqn:E'; [apply bytes_eqb_eq in E'; subst f; vm_compute in K; discriminate K|reflexivity]. }
   split; [vm_compute; reflexivity|]. split; [vm_compute; reflexivity|]. vm_compute. discriminate.
 Qed.
 (* non-vacuity: two different descendants satisfying every hypothesis of C14_commutes at an input position *)
@@ -112,7 +112,7 @@ Qed.
 (* ------------------------------------------------------------------ any order and any grouping of a family *)
 (* A family (`pfam`): k >= 1 PSETs of the same shape such that every two members (and every member with itself) satisfy the hypotheses of
    C14_commutes (`pset_pair_ok`: key-sorted, disjoint-or-identical contents as for descendants of a common ancestor — C14_descendants_compat —,
-   no difference in an unmerged field [class F3-global-fallback_locktime-dropped], no clearing statement firing [class
+   no difference in an unmerged field [today only mandatory fields and the two output commitments are unmerged], no clearing statement firing [class
    F3-witness-utxo-clears-non-witness-utxo]) and agree on the transaction-identifying fields (`pset_agree`: in particular nobody changed a required
    lock time [class C14-locktime-max-changes-unique-id]), all with unique id x.
    Then EVERY binary merge tree over EVERY permutation of the family succeeds, and any two of them give the same PSET.
@@ -215,5 +215,4 @@ Print Assumptions C14_family.
 Print Assumptions C14_scalars.
 Print Assumptions C14_commutes.
 Print Assumptions C14_keeps_all.
-Print Assumptions C14_keeps_all_refuted.
 Print Assumptions C14_xpub.
